@@ -70,6 +70,25 @@ def cmd_check(args):
     sys.exit(rc)
 
 
+def cmd_selftest(args):
+    """Binding demonstration: run the quick plan of a property and, for every trace specification it uses,
+    corrupt single recorded fields until TLC notices (see vlib._binding_selftest). Exit 0 when every trace
+    specification of the plan noticed a corruption, 2 otherwise."""
+    os.environ["VERIF_SELFTEST"] = "1"
+    ctx = vlib.Ctx(args.prop, "quick", int(os.environ.get("VERIF_SEED") or "1"))
+    ctx.replay = None
+    try:
+        load_plan(args.prop).run(ctx)
+    except vlib.NoVerdict as e:
+        print("NO-VERDICT property=%s: %s" % (args.prop, e))
+    finally:
+        ctx.cleanup()
+    st = getattr(ctx, "selftest", [])
+    ok = bool(st) and all(x for _, x in st)
+    print("SELFTEST property=%s: %s (%d trace specification run(s))" % (args.prop, "bound" if ok else "NOT demonstrated", len(st)))
+    sys.exit(0 if ok else 2)
+
+
 def cmd_setup(args):
     """Warm the Go build cache for every harness package and make sure TLC starts."""
     ctx = vlib.Ctx("setup", "quick", 1)
@@ -95,6 +114,9 @@ def main():
     c.add_argument("--tier", choices=["quick", "thorough"])
     c.add_argument("--replay")
     c.set_defaults(fn=cmd_check)
+    t = sub.add_parser("selftest")
+    t.add_argument("prop")
+    t.set_defaults(fn=cmd_selftest)
     s = sub.add_parser("setup")
     s.set_defaults(fn=cmd_setup)
     args = ap.parse_args()
